@@ -97,8 +97,49 @@ GenNm ==
                             best |-> IF {i \in DOMAIN t : t[i].a <= q} = {} THEN 0 ELSE t[Lookup(t, q)].a,
                             beyond |-> q >= t[Len(t)].a + t[Len(t)].size] : q \in {8, 16, 17, 24, 31, 32, 40, 48, 56, 63, 64, 70} }]
   /\ pc' = "emit"
+(***************************************************************************)
+(* Kernel images (the kernel heuristics of GetBase / kernelBase).          *)
+(* Ground truth is again the loader - here the boot loader with KASLR: an  *)
+(* image linked with its text segment at KV is run at KV + slide, so link  *)
+(* address a is found at a + slide.  perf names the mapping by the         *)
+(* relocation symbol (_stext, or _text at the start of the segment): the   *)
+(* mapping STARTS at that symbol's runtime address and its offset is 0,    *)
+(* the start itself, or PAGE_OFFSET on ppc64.  ChromeOS remaps the kernel  *)
+(* so that the relocation symbol lands in page 0 ("remap0": runtime        *)
+(* address of the symbol = its offset within its page).  In every case     *)
+(*     ObjAddr(runtime address of a) = a.                                  *)
+(* Numbers are relative: the harness adds 0xffffffff80000000 to every link *)
+(* address (TLC integers are 32 bit); addresses are given by their         *)
+(* distance from the relocation symbol.  The image is called vmlinux, or   *)
+(* (the code reads the symbol table then as well) has a mapping that is    *)
+(* not page aligned.                                                       *)
+(***************************************************************************)
+KV == 16 * Page
+KLayouts == << << Seg(4096, KV, 12288, 12288, TRUE) >>,
+               << Seg(4096, KV, 12288, 12288, TRUE), Seg(16384, KV + 16384, 4096, 8192, FALSE) >>,
+               \* read-only data first: the text segment is not the first PT_LOAD
+               << Seg(4096, KV - 8192, 4096, 4096, FALSE), Seg(8192, KV, 12288, 12288, TRUE) >> >>
+StextOffs == {0, 408, 4096, 4096 + 408}
+Slides == {0, 16 * Page, 4096 * Page}
+GenKernel ==
+  /\ pc = "gen"
+  /\ \E li \in DOMAIN KLayouts, ty \in Types, d \in StextOffs, reloc \in {"", "_stext", "_text"}, named \in BOOLEAN,
+        mode \in {"kaslr", "remap0"}, slide \in Slides, offmode \in {"zero", "start", "ppc64"} :
+       LET l == KLayouts[li]
+           s == l[ExecIdx(l)]
+           stext == s.vaddr + d
+           relocaddr == IF reloc = "_text" THEN s.vaddr ELSE stext
+           endv == s.vaddr + s.memsz
+           as == { a \in {relocaddr, relocaddr + 1, relocaddr + 64, stext, stext + 4096, endv - 1, s.vaddr + (s.memsz \div 2)} : a >= relocaddr /\ a < endv }
+       IN /\ (named \/ relocaddr % Page # 0)
+          /\ (mode = "remap0" => slide = 0 /\ offmode = "zero")
+          /\ c' = [kind |-> "kernel", layout |-> l, type |-> ty, seg |-> ExecIdx(l), stext |-> stext, text |-> s.vaddr, textsec |-> stext,
+                   reloc |-> reloc, named |-> named, mode |-> mode, slide |-> slide, offmode |-> offmode,
+                   relocaddr |-> relocaddr, mapsize |-> endv - relocaddr,
+                   addrs |-> { [x |-> a - relocaddr, want |-> a, unique |-> TRUE] : a \in as }]
+  /\ pc' = "emit"
 Finish == pc = "emit" /\ pc' = "end" /\ (Emit => PrintT(ToJson(c))) /\ UNCHANGED c
-Next == Gen \/ GenNm \/ Finish
+Next == Gen \/ GenNm \/ GenKernel \/ Finish
 Spec == Init /\ [][Next]_vars
 
 \* sanity of the loader model: off = vaddr (mod page) for every segment; the executable mapping contains its addresses
